@@ -286,7 +286,19 @@ func c19RunInner(c lib.Case, env *lib.Env) lib.Result {
 		return res
 	}
 	if s.Mode == "plain" {
-		er, err := archiver.ExtractZip(bytes.NewReader(arc), int64(len(arc)), out, settings)
+		var er *archiver.ExtractResult
+		if c.ID%3 == 2 {
+			// the path-based entry point (opens the archive file itself)
+			ap := filepath.Join(env.Scratch, "archive.zip")
+			if werr := os.WriteFile(ap, arc, 0o644); werr != nil {
+				res.Inconclusive(werr.Error())
+				return res
+			}
+			er, err = archiver.ExtractPath(ap, out, settings)
+			res.Add("extractions_through_extractpath", 1)
+		} else {
+			er, err = archiver.ExtractZip(bytes.NewReader(arc), int64(len(arc)), out, settings)
+		}
 		if err != nil {
 			res.Violate("extractzip-error", desc, err.Error())
 			return res
@@ -447,7 +459,7 @@ func init() {
 	lib.Register(&lib.Property{
 		ID:           "C19",
 		Level:        "exploration",
-		Rule:         "trees (nested + empty dirs, empty files, symlinks to files / dirs / dangling, 600 tiny files, 1-3 MiB files among tiny ones) archived with archiver.CompressZip, containerarchiver.CompressZip and CompressTar, extracted into an empty directory with worker counts -1 and 1..16; oracle: independent tree comparison and ExtractResult counts against the archive's entry list read with the standard library. Resumable zip extraction: inside OnEntryDone for the j-th completion the monitor snapshots first the resume file then the destination tree (= what a crash leaves), while a harness io.ReaderAt holds back the data of an earlier entry until the snapshot is taken (forced out-of-order completion, bounded wait; with one worker this degenerates to in-order); a second extraction runs on the snapshot with the copied resume file and must end with the complete tree and counts equal to the entries not skipped. Race-detector pass with 2/4/16 workers; every report with a frame in wharf/archiver is a violation. distinct = distinct (tree, format, workers | snapshot point, held entry)",
+		Rule:         "trees (nested + empty dirs, empty files, symlinks to files / dirs / dangling, 600 tiny files, 1-3 MiB files among tiny ones) archived with archiver.CompressZip, containerarchiver.CompressZip and CompressTar, extracted into an empty directory (ExtractZip on a reader, or ExtractPath on the archive file in every third case) with worker counts -1 and 1..16; oracle: independent tree comparison and ExtractResult counts against the archive's entry list read with the standard library. Resumable zip extraction: inside OnEntryDone for the j-th completion the monitor snapshots first the resume file then the destination tree (= what a crash leaves), while a harness io.ReaderAt holds back the data of an earlier entry until the snapshot is taken (forced out-of-order completion, bounded wait; with one worker this degenerates to in-order); a second extraction runs on the snapshot with the copied resume file and must end with the complete tree and counts equal to the entries not skipped. Race-detector pass with 2/4/16 workers; every report with a frame in wharf/archiver is a violation. distinct = distinct (tree, format, workers | snapshot point, held entry)",
 		Assumptions:  []string{"a crash is modelled as a snapshot of resume file then tree (file contents only; no kernel-level reordering)", "tar extraction is sequential by construction"},
 		Flavors:      func(tier string) []string { return []string{"plain", "race"} },
 		Cases:        c19Cases,
